@@ -1,7 +1,73 @@
-(* C01 - placeholder theorems until Proofs/ForgeFacts.v lands. *)
-From Coq Require Import QArith Qabs.
-From BB Require Import Base.Num.
+(* C01 - forged waveform = in-order concatenation of per-segment samples.
+   Only statements; every proof is `exact <lemma>` into Proofs/ForgeFacts.v (and Base/Num.v). *)
+From Coq Require Import List ZArith QArith Qabs Bool.
+From BB Require Import Base.Num Model.Types Model.Blueprint Model.Forge Proofs.ForgeFacts.
+Import ListNotations.
+Open Scope Q_scope.
+
+(* every segment gets round(d*SR) >= 2 samples of its own; N is their sum *)
+Theorem C01_counts : forall b SR ds f,
+  forge_bp_with b SR ds = Ok f ->
+  exists rs ns,
+    resolve_waits_aux (funs b) (args b) ds (Some 0%Q) = Ok rs /\ int_durs SR rs = Ok ns /\
+    counts_of SR rs ns /\ Forall (fun n => 2 <= n)%Z ns /\
+    map bn (fblocks f) = ns /\ fN f = sumZ ns /\ fnewdurs f = map (fun n => (inject_Z n / SR)%Q) ns.
+Proof. exact forge_counts. Qed.
+
+(* one block per segment, in blueprint order, each calling that segment's function with that segment's
+   stored arguments, the blueprint's sample rate and its own sample count (local time zero) *)
+Theorem C01_blocks_in_order : forall b SR ds f,
+  forge_bp_with b SR ds = Ok f ->
+  length (args b) = length (funs b) -> length ds = length (funs b) ->
+  map bfn (fblocks f) = funs b /\ map bargs (fblocks f) = args b /\
+  Forall (fun k => bsr k = SR) (fblocks f) /\ length (fblocks f) = length (funs b).
+Proof. exact forge_blocks_in_order. Qed.
+
+(* waveform, both markers and the time axis have the common length N, for every interpretation of
+   the pulse functions that returns the requested number of points *)
+Theorem C01_lengths : forall (V : Type) (I : block -> list V) b SR ds f,
+  (forall k, length (I k) = Z.to_nat (bn k)) ->
+  forge_bp_with b SR ds = Ok f ->
+  length (flat_map I (fblocks f)) = Z.to_nat (fN f) /\
+  length (fm1 f) = Z.to_nat (fN f) /\ length (fm2 f) = Z.to_nat (fN f) /\
+  length (fnewdurs f) = length (fblocks f).
+Proof. exact forge_lengths. Qed.
+
+(* a segment that would get fewer than two samples makes forging fail: never dropped, padded or merged *)
+Theorem C01_short : forall b SR ds rs,
+  resolve_waits_aux (funs b) (args b) ds (Some 0%Q) = Ok rs ->
+  Forall is_num rs ->
+  (exists q, In (VNum q) rs /\ (rnd (q * SR) < 2)%Z) ->
+  forge_bp_with b SR ds = Err ESegDur.
+Proof. exact forge_short. Qed.
+
+(* the only successful results are those described above: success implies every count >= 2 *)
+Theorem C01_ok_only_if_all_long : forall SR rs ns,
+  int_durs SR rs = Ok ns -> Forall is_num rs /\ Forall (fun n => 2 <= n)%Z ns /\ length ns = length rs.
+Proof. exact int_durs_ok. Qed.
+
+(* forging factors through the abstract view: two edit histories that end in the same segments,
+   markers and sample rate forge identically (names play no role) *)
+Theorem C01_history : forall a b SR ds,
+  same_view a b -> forge_bp_with a SR ds = forge_bp_with b SR ds.
+Proof. exact forge_same_view. Qed.
+
+(* away from rounding ties the count is stable under the binary64 error of dur*SR *)
 Theorem C01_round_robust : forall (n : Z) (f eps : Q),
   Qabs f <= 2#5 -> Qabs eps <= 9#100 -> rnd (inject_Z n + f + eps) = n.
 Proof. exact rnd_robust. Qed.
+
+(* non-vacuity: a three-segment blueprint with off-grid durations forges to 3 + 29 + 4 samples *)
+Example C01_example :
+  let b := mkBp [] [Framp; Fwait; Fua] [[VNum 0; VNum 1]; [VNum (32 # 100)]; [VNum 1]]
+                [VNum (29 # 1000); VNone; VNum (41 # 1000)] [(0,0); (0,0); (0,0)]%Q [(0,0); (0,0); (0,0)]%Q [] [] (VNum 100) in
+  exists f, forge_bp_with b 100 (durs b) = Ok f /\ map bn (fblocks f) = [3; 29; 4]%Z /\ fN f = 36%Z.
+Proof. exact forge_example. Qed.
+
+Print Assumptions C01_counts.
+Print Assumptions C01_blocks_in_order.
+Print Assumptions C01_lengths.
+Print Assumptions C01_short.
+Print Assumptions C01_ok_only_if_all_long.
+Print Assumptions C01_history.
 Print Assumptions C01_round_robust.
